@@ -70,6 +70,21 @@ HANDWRITTEN = [
     ('whitespace-vt-ff', 'int\va\f=\t1;\v\fint b;\n'), ('crlf-line-ends', 'int a;\r\nint b;\r\n'), ('lone-cr', 'int a;\rint b;\n'),
     ('all-simple-escapes', 'char s[] = "\\a\\b\\f\\n\\r\\t\\v\\\\\\\'\\"\\?"; int v = \'\\v\' + \'\\a\' * 2 + \'\\f\' * 3 + \'\\r\' * 5 + \'\\t\' * 7 + \'\\b\' * 11 + \'\\n\' * 13;\n'
                            'int w(int c) { switch (c) { case \'\\v\': return 1; case \'\\f\': return 2; case \'\\r\': return 3; case \'\\a\': return 4; case \'\\b\': return 5; case \'\\t\': return 6; } return 0; }\n'),
+    # round 16: an override of the element just past a string literal's terminator (buffer growth boundary), member designators
+    # of offsetof applied to non-struct types, __builtin_types_compatible_p with a non-type operand, #undef of the macro being invoked
+    ('string-override-at-length', 'char s[8] = { "abc", [4] = \'x\' }; unsigned u[8] = { U"abcde", [6] = 1, [7] = 2 }; unsigned w[9] = { U"abcdefg", [8] = 3 };\n'
+                                  'void f(void) { static unsigned short h[6] = { u"ab", [3] = 7 }; static char t[6] = { "a", [2] = 1, [3] = 2, [4] = 3 }; }\n'),
+    ('offsetof-member-of-scalar', 'struct in { int a; int b[3]; }; struct out { struct in in[2]; int v[3]; }; int x = __builtin_offsetof(struct out, in[1].a.b);\n'),
+    ('offsetof-member-of-array', 'struct in { int a; int b[3]; }; struct out { struct in in[2]; int v[3]; }; int x = __builtin_offsetof(struct out, v.c);\n'),
+    ('offsetof-index-of-scalar', 'struct in { int a; int b[3]; }; int x = __builtin_offsetof(struct in, a[1]);\n'),
+    ('types-compatible-non-type', 'int obj; int x = __builtin_types_compatible_p(int, obj);\n'),
+    ('types-compatible-hidden-typedef', 'typedef int T; int f(void) { int T = 1; return __builtin_types_compatible_p(int, T) + T; }\n'),
+    ('types-compatible-first-non-type', 'int obj; int x = __builtin_types_compatible_p(obj, int);\n'),
+    ('undef-inside-own-call-only', '#define MUL(a, b) a + b\nint x = MUL(1,\n#undef MUL\n2);\n'),
+    ('undef-redefine-other-inside-call', '#define MUL(a, b) a + b\nint x = MUL(1,\n#undef MUL\n#define OTHER(p, q, r) p q r\n2);\nint y = OTHER(3, +, 4);\n'),
+    ('wide-auto-short-literal', 'int f(void) { unsigned b[10] = U"xyz"; unsigned short h[9] = u"ab"; int w[7] = L"q"; unsigned e[4] = U""; return b[4] + h[5] + w[3] + e[1]; }\n'),
+    ('variadic-many-arguments', 'int sum(int n, ...); int printf(const char *, ...); int f(int a) { return sum(12, 1, 2, 3, 4, 5, 6, 7, 8, 9, 10, 11, 12) + printf("%d %d %d %d %d %d %d %s\\n", a, 2, 3, 4, 5, 6, 7, "x") + sum(0); }\n'
+                                'int g(int (*v)(int, ...)) { return v(1, 2.0, 3L, "s", 4, 5, 6, 7, 8, 9, 10, 11, 12, 13, 14, 15, 16, 17, 18, 19, 20); }\n'),
     ('define-identical-inside-call', '#define H(x) x + x\nint c = H(\n#define H(x) x + x\n4);\n#define W(a, b) #a b\nconst char *s = W(q,\n#define W(a, b) #a b\n"r");\nint d = H(1);\n'),
     ('define-identical-after-use', '#define H(x) x + x\nint c = H(1);\n#define H(x) x + x\nint d = H(2);\n#define H(x) x + x\n#define K 1\n#define K 1\nint e = K;\n'),
     ('define-inside-call', '#define H(x) x\nint c = H(\n#define H(x) x x\n4);\n'),
